@@ -96,7 +96,11 @@ func (h *Handler) handleDiscover(p packet.DHCP4, options packet.DHCP4Options) (d
 
 	// Client can send another discovery after the entry expiry
 	// Free the entry so that a new IP is generated.
-	lease.State = StateDiscover
+	// A client that discovers again while its lease is still valid is re-offered its address and keeps
+	// the lease: moving it to the discover state would drop the binding from the next saved lease file.
+	if !(lease.State == StateAllocated && lease.IPOffer == lease.Addr.IP) {
+		lease.State = StateDiscover
+	}
 	lease.XID = packet.CopyBytes(p.XId())
 	lease.OfferExpiry = now.Add(time.Second * 5)
 
